@@ -330,6 +330,40 @@ pub fn run(ctx: &mut Ctx) {
             judge_doc(ctx, &sp, "time-limited to=\"2000-01-01 00:00:00\"", &cfg, false, &format!("garbage-offset-doc:{off}"));
         }
     }
+    // ---- the edges of the calendar: years 0000 / 0001 / 9999 and the first / last day a date
+    // library can represent, with offsets that push the instant across the edge. Where the value
+    // is canonical the reference decides; otherwise the only demand is that a decision is returned
+    // (an evaluator that panics on `to - offset` overflow takes the whole run down)
+    if shard == 1 % n {
+        let edge = [
+            "0000-01-01 00:00:00", "0001-01-01 00:00:00", "9999-12-31 23:59:59", "+262142-12-31 23:59:59", "-262143-01-01 00:00:00",
+            "262142-12-31 23:59:59", "+262143-01-01 00:00:00", "+10000-01-01 00:00:00", "-0001-12-31 23:59:59", "1969-12-31 23:59:59",
+        ];
+        for to in edge {
+            for off in ["+00:00", "-00:01", "+00:01", "-12:00", "+14:00", "-2359", "+2359"] {
+                for now in ["2020-06-15T12:00:00+00:00", "9999-12-31T23:59:59+14:00", "0001-01-01T00:00:00-12:00"] {
+                    let now_e = parse_rfc3339(now).unwrap();
+                    match rtime_ready(to, off, now_e) {
+                        Some(want) => judge_eval(ctx, Some(Some(to)), off, now, want, "calendar-edge"),
+                        None => {
+                            ctx.eval();
+                            match call_time_eval(Some(Some(to)), off, now) {
+                                Err(p) => {
+                                    ctx.panic_site(&p);
+                                    ctx.violation(
+                                        "calendar-edge",
+                                        format!("evaluator panicked on to={to:?} offset={off:?}: {} @ {}", trunc(&p.msg, 80), api::short_loc(&p.loc)),
+                                        json!({"kind": "time", "to": to, "has_to": true, "offset": off, "now": now, "want": false, "class": "calendar-edge-nopanic"}),
+                                    );
+                                }
+                                Ok(_) => ctx.count("calendar-edge:decision returned (value outside the canonical form, verdict not judged)"),
+                            }
+                        }
+                    }
+                }
+            }
+        }
+    }
     // ---- Decision events in full documents
     super::decision_stage(ctx, "C05", 53, if quick { 200_000 } else { 4_000_000 }, 0.92);
     // ---- monotonicity: fixed source cleaned at increasing instants
@@ -405,6 +439,15 @@ pub fn replay(ctx: &mut Ctx, v: &Value) -> Result<(), String> {
             let has_to = v.get("has_to").and_then(|x| x.as_bool()).unwrap_or(true);
             let to = s("to");
             let arg: Option<Option<&str>> = if !has_to { None } else { Some(to.as_deref()) };
+            if s("class").as_deref() == Some("calendar-edge-nopanic") {
+                // only "a decision is returned" was demanded
+                ctx.eval();
+                match call_time_eval(arg, &s("offset").ok_or("no offset")?, &s("now").ok_or("no now")?) {
+                    Err(p) => ctx.violation("replay", format!("evaluator panicked: {} @ {}", trunc(&p.msg, 80), api::short_loc(&p.loc)), v.clone()),
+                    Ok(_) => ctx.nontrivial(hash_str(&format!("{to:?}"))),
+                }
+                return Ok(());
+            }
             judge_eval(ctx, arg, &s("offset").ok_or("no offset")?, &s("now").ok_or("no now")?, v.get("want").and_then(|x| x.as_bool()).ok_or("no want")?, "replay");
             Ok(())
         }
